@@ -259,9 +259,15 @@ def r5(ctx, rep):
             continue
         for arm in m["arms"]:
             if "TransformCall" in show(arm["pat"]):
-                txt = show_stmts(arm["body"], maxdepth=12)
-                a, b, c = txt.find("self.create_a_table_instance(id, None, tid)"), txt.find("let redirects = zip(cids, table_ref.columns.iter().map(|(_, c)| *c)).collect()"), txt.find("self.redirect_mappings(redirects)")
-                ok = 0 <= a < b < c and "last_transform.as_select().unwrap().clone()" in txt
+                # the argument of redirect_mappings, with every intermediate local inlined and closure parameters numbered:
+                # zip(<ids of the closing Select of the lowered relation>, <the new instance's column ids, in order>)
+                import alpha
+                A = alpha.Inliner(t, max_inline=4)
+                for n in walk(arm["body"]):
+                    if n.get("k") == "mcall" and n["m"] == "redirect_mappings" and n["a"]:
+                        txt = A.show(n["a"][0])
+                        ok = txt.startswith("zip(") and ".as_pipeline().unwrap().last().unwrap().as_select().unwrap().clone(), self.create_a_table_instance(" in txt \
+                            and txt.endswith(".columns.iter().map(|_c0| *_c0)).collect()")
     rep.check(ok, "redirect", "the ids of the pulled-out pipeline's closing Select must be redirected, in order, to the new instance's column ids", file=t["file"], line=t["l"], fn=t["path"])
     r = syn.fn("Lowerer::redirect_mappings", crate="prqlc")
     txt = show_stmts(r["body"], maxdepth=14)
